@@ -89,7 +89,7 @@ def failing(name, rng=None):
         s['faults'] = [{'at': 'kexinit', 'op': 'patch', 'offset': 5, 'hex': '15'}]
     elif name == 'garbage-banner':
         s['faults'] = [{'at': 'banner', 'op': 'random', 'seed': 3, 'len': 80}, {'at': 'banner', 'op': 'then_close'}]
-    elif name in ('unresolvable', 'refused'):
+    elif name in ('unresolvable', 'refused', 'badname'):
         return None
     else:
         raise ValueError(name)
@@ -110,6 +110,9 @@ class Target:
             self.spec = self.peer.target()
         elif kind == 'unresolvable':
             self.spec = 'no-such-host-%s.invalid:2222' % name
+        elif kind == 'badname':
+            # a host name with an empty label: the resolver raises an exception type the connection code does not expect, so the worker's last-resort handler reports an internal error
+            self.spec = 'gateway..example:2222'
         self.script = script
 
     def stop(self):
